@@ -451,6 +451,7 @@ struct Run<'a> {
     rng: Rng,
     t_ticks: u64,
     tick_ms: u64,
+    acc: String,
     stats: BTreeMap<String, u64>,
 }
 
@@ -516,6 +517,7 @@ impl<'a> Run<'a> {
             Ok(r) => r.to_string(),
             Err(m) => format!("panic: {m}"),
         };
+        bump(&mut self.stats, &format!("ready:{}:{res}", self.acc), 1);
         json!({"ev": "ready", "w": w, "res": res, "woken": self.wakers.woken_since(&before),
                "unres": self.calls.len()})
     }
@@ -651,7 +653,7 @@ impl<'a> Run<'a> {
             Outcome::Timeout => ("timeout", String::new(), None),
             Outcome::Service => ("service", String::new(), None),
         };
-        bump(&mut self.stats, &format!("res:{res}"), 1);
+        bump(&mut self.stats, &format!("res:{}:{res}", self.acc), 1);
         out.push(json!({"ev": "poll", "c": i + 1, "res": res, "el_ms": el_ms, "err": err,
                         "woken": self.wakers.woken_since(before), "unres": self.calls.len()}));
         if let Some(mut server) = server {
@@ -862,6 +864,7 @@ fn run_one(mat: &TlsMaterial, run: usize, sched: &Value) -> RunOut {
             rng: Rng::new(seed),
             t_ticks,
             tick_ms,
+            acc: acc.clone(),
             stats: BTreeMap::new(),
         };
         let mut recs = vec![json!({"ev": "reset", "run": run, "acc": acc, "limit": limit, "T": t_ticks,
